@@ -10,7 +10,7 @@ CHECKS = {
     text="Runs tcell's TParm on every parameterized string of the database over its parameter domain (exhaustive: cursor 0..299^2 quick / 0..1023^2 thorough, colour 0..255, RGB lattice quick / all 2^24 thorough) and on seeded well-formed programs of the terminfo(5) grammar, comparing each output with an independently written stack machine; random/truncated strings for robustness. Held = no disagreement on what was run.",
     note="Trusted: the tiref interpreter (cross-checked against ncurses tparm on integer-only programs in every run) and the terminfo(5) reading; programs where the reference reports a strict-mode fault are excluded."),
  "C02": dict(level="exploration", design="3/C02", technique="differential trace monitor on the real input parser (synchronous verif hook): one-read vs partitioned decoding, framing oracle, pipeline cross-check",
-    text="Feeds seeded token strings and random byte strings to tcell's real collectEventsFromInput for every database entry, in one read and under all (n<=10) or many partitions with no expiry in between, and requires identical event lists, zero leftover after expiry and no panic; state-free token strings must decode to the concatenation of their tokens; a sample goes through the real inputLoop/mainLoop/PollEvent path, and a sequence split across two reads is fed while the main loop is held up past the escape timer by a redraw on a slow tty.",
+    text="Feeds seeded token strings and random byte strings to tcell's real collectEventsFromInput for every database entry, in one read and under all (n<=10) or many partitions with no expiry in between, and requires identical event lists, zero leftover after expiry and no panic; state-free token strings must decode to the concatenation of their tokens; repeated tokens; a sample goes through the real inputLoop/mainLoop/PollEvent path, sequences trickle in one byte per read 20 ms apart, input sizes around the 128-byte read size end in a lone ESC, and a sequence split across two reads is fed while the main loop is held up past the escape timer by a redraw on a slow tty.",
     note="Assumes expire=false on every chunk models 'no timeout in between'; the 50 ms timer is exercised by the stalled-main-loop rounds (timing-compromised rounds discarded) and by C06. Sampled, not exhaustive, over strings."),
  "C03": dict(level="exploration", design="3/C03", technique="exhaustive enumeration of the key tables of all database entries through the real parser, against acceptance sets derived independently from the entry's field names and an independent xterm modifier encoder",
     text="Every Key* field of every entry, every control byte, DEL, lone ESC, the Alt prefix, every xterm modifier parameter 2..16 on cursor/editing/function keys, prefix-freedom of descriptions and built tables, ordered pairs (sampled in quick, all in thorough) and sampled triples; the Alt prefix with ESC and key in two reads; every sequence under all 8 combinations of application modes (mouse/paste/focus, set through the SetModes hook); key runs through the real reader and main loop with a poller that starts late.",
@@ -28,16 +28,16 @@ CHECKS = {
     text="Seeded ViewPort geometries/op sequences checked call by call at the recording parent (mapping, clipping, offset limits in inside-before => inside-after form) and seeded BoxLayouts (<= 8 children, nested) checked from the ViewPorts handed to children and from what a full Draw paints on the root: order, disjointness, containment, preferred extent, exact surplus shares; half of the nested layouts carry a second (application) watcher that claims every event.",
     note="The rectangle of a ViewPort is what GetPhysical/Size report; nested layouts are not re-oriented after creation (the statement does not say when a child's changed preferred size must be picked up)."),
  "C01": dict(level="exploration", design="3/C01", technique="lock-step differential monitor: real terminfo screen over an instrumented fake tty, every output byte interpreted by a reference terminal emulator, compared with a shadow model after every Show/Sync/resize",
-    text="Seeded draw histories (incl. external corruption + Sync, silent and callback resizes, locks incl. negative origins, identical re-stores and re-stores with one combining mark exchanged, cursor ops far outside the screen) on all 45 ECMA-48-family entries x {as registered, 24-bit strings added} plus a TCELL_TRUECOLOR=disable pass; after each redraw the full emulator grid (rune, combining, width, colours with nearest-palette sets, attributes, underline style/colour, hyperlink) and cursor are compared with the model.",
+    text="Seeded draw histories (incl. external corruption + Sync, silent and callback resizes, locks incl. negative origins, identical re-stores and re-stores with one combining mark exchanged, cursor ops far outside the screen, Suspend / foreign output / Resume followed by the application storing everything again; for C13 also a Show whose output the tty refuses after k bytes followed by an idle Show) on all 45 ECMA-48-family entries x {as registered, 24-bit strings added} plus a TCELL_TRUECOLOR=disable pass; a coalesced-size-report scenario (window A->B->A while another goroutine is inside Show on a slow tty, judged when the library is idle); after each redraw the full emulator grid (rune, combining, width, colours with nearest-palette sets, attributes, underline style/colour, hyperlink) and cursor are compared with the model.",
     note="Assumes A1-A4 (deferred wrap, agreed widths, sun FF, no padding delays); the emulator and colour references are the harness's own; histories are sampled."),
- "C04": dict(level="exploration", design="3/C04", technique="register monitor on the reference terminal at Fini/Suspend/Resume boundaries plus an online call-order automaton in the fake Tty, with faults: resize during Drain, failing first Read, modes enabled from another goroutine in the unlocked window of a shutdown",
+ "C04": dict(level="exploration", design="3/C04", technique="register monitor on the reference terminal at Fini/Suspend/Resume boundaries plus an online call-order automaton in the fake Tty, with faults: resize during Drain, failing first Read, modes enabled or Fini called from another goroutine in the unlocked window of a shutdown, a window of 0 columns/rows",
     text="Seeded mode/drawing histories with Suspend/Resume cycles ending in Fini or Suspend, on 45 entries x TCELL_ALTSCREEN {unset, disable} x both Drain personalities; at every shutdown return the emulator's registers are compared with the reset vector, after Resume with the application's enabled modes; every Tty call is checked against the contract automaton.",
     note="Only capabilities an entry has are demanded; hyperlink register excluded from the reset vector; between Suspend and Resume only mode requests are issued (drawing then is C06's)."),
  "C09": dict(level="exploration", design="3/C09", technique="strict ECMA-48 tokenizer + residue rule over every byte of draw histories (UTF-8 and an 8-bit locale) and a twin-screen injection sweep over code points",
     text="All output of seeded draw histories on 45 entries goes through a strict tokenizer (numeric CSI parameters, terminated strings, no control bytes as payload, no % or $< residue); every must-blank rune via SetContent/SetCell/Fill at four columns in three locales must produce bytes identical to a blank's; every other swept rune's output must tokenize. Quick sweeps all must-blank runes and a stride of the rest, thorough every code point.",
     note="Generated content never contains % or $; must-blank is a lower bound; the tokenizer is the harness's own."),
  "C11": dict(level="exploration", design="3/C11", technique="round-trip monitor: harness encoder -> real parser (hook and real pipeline under back-pressure) -> rune events; exhaustive per charset",
-    text="Every Unicode scalar in UTF-8 and every round-tripping code point of 22 stateless legacy charsets, whole and split at every byte boundary; seeded strings under cuts; paste brackets and focus reports on all entries; text through the real inputLoop/mainLoop with a stalled poller, trickling byte by byte (15 ms apart), and on real screens under each locale spelling (C.UTF-8, POSIX.UTF-8, modifiers).",
+    text="Every Unicode scalar in UTF-8 and every round-tripping code point of 22 stateless legacy charsets, whole and split at every byte boundary; seeded strings under cuts; paste brackets and focus reports on all entries; text through the real inputLoop/mainLoop with a stalled poller, split across two reads under a stalled main loop, pasted into a modelled terminal that brackets only in mode 2004 (across Suspend/Resume), typed across cancelled and restarted ChannelEvents pumps, trickling byte by byte (15 ms apart), and on real screens under each locale spelling (C.UTF-8, POSIX.UTF-8, modifiers).",
     note="x/text codecs define the charsets; ISO-2022-JP and HZ excluded by the statement."),
  "C12": dict(level="exploration", design="3/C12", technique="independent xterm mouse-protocol decoder vs the real parser; exhaustive code/coordinate sweeps, stateful sweeps and seeded histories",
     text="SGR codes 0..255 x finals x boundary coordinates on fresh state and after a press (with a following motion report); after a wheel impulse from idle, with a lone ESC in front, two reports or a report and text in one read (every introducer style); legacy X11 reports over all button bytes and a coordinate grid incl. bytes below 32 (thorough: all 256^2); 8-bit CSI in 8-bit and UTF-8 locales; decoding under all application-mode combinations; seeded press/motion/wheel/release histories against a held-button model; live drags on a real screen with an API call (mode changes, Suspend/Resume, Sync) between press and motion.",
@@ -58,13 +58,13 @@ CHECKS = {
     text="Compiles cmd/wasmchk for js/wasm against /repo (a compile error in tcell is the violation), then under Node: all 780 sequences over Suspend/Resume/SetSize(new)/SetSize(current)/Fini up to length 4 with a Size() probe after each call (blocked = not finished after 2000 yields on the single thread); every WebKeyNames name x 16 modifier sets, mouse handlers x which x modifiers x all ordered pairs of 9 flag settings, paste/focus; seeded draw histories compared cell by cell and per-Show drawCell target sets (thorough: 3000 histories over 16 Node processes).",
     note="The real DOM code of tcell.js is not executed; mouse expectations restricted to unambiguous cases."),
  "C06": dict(level="fault_enumeration", design="3/C06", technique="fault enumeration over queue fill levels, reader states and concurrent actors at shutdown, in worker child processes, with a structural goroutine-dump classifier (deadlock) and a draw step counter (livelock); seeded schedule controller at build-tagged schedule points",
-    text="Every event-queue fill 0..cap, every chunk-queue fill 0..cap with the main loop parked, reader parked on the send, reader held between Read and send by a gate, Read errors; x Fini / Suspend / Suspend-Resume-Fini; x none/poller/poster/Show loop/resize storm/flood with a burst drainer; a lone ESC or a stalled redraw before the shutdown; thousands of tries of the race for the last queue slot (input path vs PostEvent, released through the lock-free queue-level hook); the real devTty on a pty under a SIGWINCH storm; plus seeded random schedules. Verdict per scenario: returned, or structural deadlock/livelock witness; post-conditions after Fini, Suspend and Resume.",
+    text="Every event-queue fill 0..cap, every chunk-queue fill 0..cap with the main loop parked, reader parked on the send, reader held between Read and send by a gate, Read errors; x Fini / Suspend / Suspend-Resume-Fini; x none/poller/poster/Show loop/resize storm/flood with a burst drainer; a lone ESC or a stalled redraw before the shutdown; thousands of tries of the race for the last queue slot (input path vs PostEvent, released through the lock-free queue-level hook); the real devTty on a pty under a SIGWINCH storm and a resize after the last Resume; Tty.Start failing at Resume; Resume/Suspend/Fini from a second goroutine inside the unlocked window of a Suspend; panics in shutdown calls; read-spin livelock witness; plus seeded random schedules. Verdict per scenario: returned, or structural deadlock/livelock witness; post-conditions after Fini, Suspend and Resume.",
     note="Liveness restated as bounded progress with structural witnesses; watchdog expiry alone is inconclusive; one terminal entry (xterm-256color) - the shutdown path does not depend on the entry."),
  "C05": dict(level="exploration", design="3/C05", technique="recorded client-boundary histories with unique ids checked offline (exactly-once, FIFO, conservation of posts, timestamp bounds), porcupine linearizability of Post/Poll/HasPending against a capacity-agnostic FIFO model, under the Go race detector with schedule-point perturbation",
-    text="Feeder, 1-4 posters, resize storm and a poller in four modes (eager, slow, absent until both queues are full and longer than the escape timeout, bursty) on a real screen; every delivered event is matched against the id-carrying input stream and the posters' return values; When() bounds; HasPending-then-Poll, also asked thousands of times while the main loop is held up by a redraw on a slow tty with undecodable/incomplete/plain input waiting (verdict: the poller goroutine found parked inside PollEvent); mouse reports with wheel, extra-button, modifier and motion codes; ChannelEvents order and closing.",
+    text="Feeder, 1-4 posters, resize storm and a poller in four modes (eager, slow, absent until both queues are full and longer than the escape timeout, bursty) on a real screen; every delivered event is matched against the id-carrying input stream and the posters' return values; When() bounds; HasPending-then-Poll, also asked thousands of times while the main loop is held up by a redraw on a slow tty with undecodable/incomplete/plain input waiting (verdict: the poller goroutine found parked inside PollEvent); mouse reports with wheel, extra-button, modifier and motion codes; events posted before Init; PollEvent loops and ChannelEvents pumps kept across Suspend/Resume; input that fills the reader's buffer exactly; lone ESC + resize; ChannelEvents order and closing.",
     note="Resize events excluded (dropped on a full queue by design); a history in which the feeder itself paused > 20 ms inside a sequence is inconclusive for decoding; histories sampled."),
  "C10": dict(level="exploration", design="3/C10", technique="Go race detector (-race, halt_on_error=0, log files) over all pairs of Screen methods run concurrently with the library's own goroutines, in worker processes; report parsing and de-duplication by outermost tcell entry points; write-block contiguity and well-formedness on the reference terminal",
-    text="Every unordered pair (incl. self-pairs) of 37 Screen methods on a terminfo screen and of 36 on a SimulationScreen, two goroutines in tight loops (quick 100, thorough 4000 iterations; Show and Sync loops 500) on a styled 40x12 screen (one Sync > 4 KiB) with the input feeder, resize notifier and event drain running, plus seeded sets of 3-5 methods; any DATA RACE report with a tcell frame, any panic or runtime fatal error, any write block ending inside a sequence, malformed output, or the writes of one Show/Sync interleaved with a write of another goroutine is a violation. A race report counts against tcell when the racing access of both stacks is tcell's.",
+    text="Every unordered pair (incl. self-pairs) of 37 Screen methods on a terminfo screen and of 36 on a SimulationScreen, two goroutines in tight loops (quick 100, thorough 4000 iterations; Show and Sync loops 500) on a styled 40x12 screen (one Sync > 4 KiB) with the input feeder (incl. lone ESC + silence), resize notifier and event drain running, lifecycle pairs under the environment switches, encoder users under a stateful-codec locale, jobs on the library's own devTty over a pseudo terminal, plus seeded sets of 3-5 methods; any DATA RACE report with a tcell frame, any panic or runtime fatal error, any write block ending inside a sequence, malformed output, or the writes of one Show/Sync interleaved with a write of another goroutine is a violation. A race report counts against tcell when the racing access of both stacks is tcell's.",
     note="The detector sees only executed paths within its history window; lifecycle calls (Suspend/Resume, Fini) are not paired with each other; PollEvent and ChannelEvents never together."),
 }
 PENDING = {}
